@@ -95,6 +95,13 @@ impl Report {
     /// Records a violation; only the first occurrence of a key is kept, and at most 40 in total
     /// (the count of suppressed ones is reported).
     pub fn violation(&mut self, v: Violation) {
+        // a panic raised inside the harness itself is a machinery failure, never a verdict
+        if v.observed.contains("panicked at rsmc/src") || v.observed.contains("panicked at /verif/") || v.observed.contains("panicked at gfref/src") {
+            if self.machinery_errors.len() < 5 {
+                self.machinery_errors.push(format!("harness panic while checking {}: {}", v.key, v.observed));
+            }
+            return;
+        }
         if self.viol_keys.contains(&v.key) {
             return;
         }
